@@ -85,6 +85,9 @@ def monitor (rep : Report) (ln : Nat) (h : Hist) (op : String) (oa : List (Strin
   let failedCreation := atts.length > (arg a "created").toNat?.getD 0
   let rep := if arg a "blocked" != "" && (failedCreation || (h.cancellable && h.canceled) || (op == "cancel" && h.cancellable))
              then fail rep ln "recv_progress" else rep
+  -- the receivers that were waiting when the stream was created reach it without waiting for the
+  -- underlying send to finish
+  let rep := if obs.contains "latewake=1" then fail rep ln "recv_progress" else rep
   let rep := if obs.contains "PANIC" then { fail rep ln "stream_methods_total" with monitorFails := rep.monitorFails + 1 } else rep
   let rep := match (arg a "created").toNat? with
     | some n => if n ≤ 1 then rep else fail rep ln "create_at_most_once"
